@@ -69,6 +69,12 @@ func c17Answers() map[string]answer {
 		"bad-key":      {Kind: "ok", Key: "this is not key material\nneither is this\n"},
 		"mixed":        {Kind: "ok", Key: "garbage line\n" + l[2] + "\n# comment\n" + l[1] + "\nmore garbage"},
 		"block":        {Kind: "block", Block: 20 * time.Second},
+		// unusually long but legal lines: a certificate line of about 100 KiB (long comment), alone, after and before
+		// ordinary lines (readers with a per-line limit stop there)
+		"long-only":    {Kind: "ok", Key: l[1] + " " + strings.Repeat("c", 100<<10) + "\n"},
+		"long-last":    {Kind: "ok", Key: l[0] + "\n" + l[2] + " " + strings.Repeat("d", 70<<10) + "\n"},
+		"long-first":   {Kind: "ok", Key: l[3] + " " + strings.Repeat("e", 1<<20) + "\n" + l[1] + "\n"},
+		"long-garbage": {Kind: "ok", Key: strings.Repeat("g", 200<<10) + "\n" + l[2] + "\n"},
 	}
 	// every gRPC status code an endpoint can answer with
 	for code := codes.Code(1); code <= codes.Unauthenticated; code++ {
@@ -376,7 +382,10 @@ func checkC17(c *ev.Ctx) {
 		st := fmt.Sprintf("status-%d", code)
 		vecs = append(vecs, []string{st}, []string{st, "ok1"}, []string{"unavailable", st, "ok3"}, []string{st, st})
 	}
-	// every gRPC status code 1..16 in the first / second position before an endpoint that signs; deadline answers in one position per vector
+	for _, lk := range []string{"long-only", "long-last", "long-first", "long-garbage"} {
+		vecs = append(vecs, []string{lk}, []string{lk, "ok1"}, []string{"unavailable", lk, "ok3"})
+	}
+	// deadline answers in one position per vector
 	for pos := 0; pos < 3; pos++ {
 		v := []string{"unavailable", "unavailable", "ok1"}
 		v[pos] = "block"
